@@ -26,7 +26,7 @@ PROP = "C12"
 NAME = "paramsim"
 RULE = (
     "paramsim: one run = acyclic expression graph over <=6 parameters in a seeded declaration order, constructed through one of "
-    "6 constructors, followed by 5-30 ops (UPDATE/EXPORT/HISTORY/COPY/REUPDATE/RELOAD/faulted UPDATE); fixed plans enumerate all "
+    "6 constructors, followed by 5-30 ops (UPDATE/FD_UPDATE/EXPORT/HISTORY/COPY/REUPDATE/RELOAD/faulted UPDATE); fixed plans enumerate all "
     "declaration orders of all DAGs on 3 (quick) / 4 (thorough) nodes; distinct = digest of (graph shape, declaration permutation "
     "class, constructor, op-kind sequence); non-trivial = graph has an expression depending on another expression AND at least one "
     "update happened after construction"
@@ -158,8 +158,18 @@ def generate(rng: random.Random, tier: str) -> dict:
         elif r < 0.78:
             ups = [[round(rng.uniform(-1.0, 2.0), 5) for _ in base_labels] for _ in range(rng.randint(1, 4))]
             ops.append({"op": "HISTORY", "updates": ups, "index": rng.choice([0, -1, -2, 1])})
-        elif r < 0.86:
+        elif r < 0.83:
             ops.append({"op": "RELOAD", "how": rng.choice(RELOADS)})
+        elif r < 0.87:
+            # what a finite-difference jacobian does: nudge one free parameter by ~1.5e-8 (relative), repeatedly
+            ops.append(
+                {
+                    "op": "FD_UPDATE",
+                    "which": rng.randrange(6),
+                    "rel": rng.choice([1.5e-8, 1.5e-8, 1e-6, 3e-10, 1e-12]),
+                    "repeat": rng.choice([1, 1, 2, 5, 40]),
+                }
+            )
         elif r < 0.90:
             ops.append({"op": "UPDATE_ALL_FREE", "values": [round(rng.uniform(-2.0, 3.0), 5) for _ in range(6)]})
         else:
@@ -599,6 +609,20 @@ class Run:
                     params.set_from_label_and_value_arrays(labs, new)
                     model.set_optimizer_values(labs, new)
                     updates += 1
+                elif kind == "FD_UPDATE":
+                    labs, vals, lo, hi = params.get_label_value_and_bounds_arrays(exclude_non_vary=True)
+                    if len(labs):
+                        x = np.array(vals, dtype=float)
+                        i = op["which"] % len(labs)
+                        for _ in range(op["repeat"]):
+                            h = op["rel"] * max(1.0, abs(x[i]))
+                            x[i] = x[i] + h
+                            params.set_from_label_and_value_arrays(labs, x.copy())
+                            model.set_optimizer_values(labs, x)
+                            updates += 1
+                            if not self.consistent(params, model, f"after FD_UPDATE step h={h:g} on {labs[i]}"):
+                                break
+                        rec.probe("finite_difference_sized_update")
                 elif kind == "EXPORT":
                     labs, vals, lo, hi = params.get_label_value_and_bounds_arrays(exclude_non_vary=op["exclude_non_vary"])
                     want = model.values()
@@ -721,7 +745,7 @@ class Run:
                 ok = self.consistent(
                     params, model, tag + (" (first successful op after a failed update)" if pending_recovery else "")
                 )
-            if ok and pending_recovery and kind in ("UPDATE", "UPDATE_ALL_FREE", "REUPDATE", "EXPORT", "HISTORY"):
+            if ok and pending_recovery and kind in ("UPDATE", "UPDATE_ALL_FREE", "FD_UPDATE", "REUPDATE", "EXPORT", "HISTORY"):
                 rec.oracle_after_fault += 1
                 rec.probe("recovered_after_failed_update")
                 pending_recovery = False
